@@ -4,7 +4,7 @@ worktree outside /repo and /verif, then runs the named property's check against 
 usage: seeded_eval.py <dir with patch.diff, demo, meta?> <PROP> [--confirm] [--all-props]"""
 import subprocess, sys, os, shutil, json
 V = os.path.dirname(os.path.dirname(os.path.abspath(__file__)))
-WT = "/tmp/wt_seed"; VS = "/tmp/vs_seed"; TGT = "/tmp/seed_target"
+WT = f"/tmp/wt_seed_{os.getpid()}"; VS = f"/tmp/vs_seed_{os.getpid()}"; TGT = "/tmp/seed_target"
 def sh(cmd, timeout=3000): return subprocess.run(cmd, shell=True, capture_output=True, text=True, timeout=timeout)
 def main():
     d, prop = sys.argv[1], sys.argv[2]
